@@ -6,6 +6,8 @@
 -/
 import Mathlib.Tactic.Set
 import Mathlib.Tactic.SplitIfs
+import Mathlib.Data.Nat.Prime.Basic
+import Mathlib.Tactic.IntervalCases
 import PsModel.Wheel
 namespace Ps.Wheel
 
@@ -405,5 +407,175 @@ theorem addSievingPrime210_denotes (stop p L : Nat) (hp : Nat.gcd (p % 30) 30 = 
       (∀ x, max p ((L + 6) / p + 1) ≤ x → x < q → Nat.gcd x 210 ≠ 1) ∧ s.sp = p / 30 :=
   addSievingPrime_denotes 210 48 Gen.wheel210Init (by decide) (by decide) cls210_len (by decide)
     wheel210Init_spec init210_ok bit210_ok stop p L hp hp0 hL hnw hnw2 hstop s h
+
+end Ps.Wheel
+
+namespace Ps.Wheel
+
+
+/-- n is one of the multiples p·q (q ≥ p, q coprime to the wheel modulus M) that the walk of the
+    sieving prime p crosses off -/
+def ClearedBy (M p n : Nat) : Prop := ∃ q, p ≤ q ∧ Nat.gcd q M = 1 ∧ n = p * q
+
+/-- **sieve principle** behind Erat::sieveSegment: a number n > 163 coprime to 30 (i.e. a number that has a bit in
+    the sieve array) with n ≤ H is prime iff (a) no prime from 7 to 163 divides it — the pre-sieve —
+    and (b) no sieving prime p in (163, √H] crosses it off, where every sieving prime walks the
+    quotients q ≥ p coprime to 30 (EratSmall / EratMedium) or coprime to 210 (EratBig), `M p` being
+    the modulus of the algorithm p is routed to -/
+theorem sieve_principle (M : Nat → Nat) (hM : ∀ p, M p = 30 ∨ M p = 210) (n H : Nat) (hn : 163 < n) (hnH : n ≤ H)
+    (hc : Nat.gcd n 30 = 1) :
+    n.Prime ↔ (∀ p, p.Prime → 7 ≤ p → p ≤ 163 → ¬ p ∣ n) ∧
+              (∀ p, p.Prime → 163 < p → p * p ≤ H → ¬ ClearedBy (M p) p n) := by
+  constructor
+  · intro hp
+    refine ⟨?_, ?_⟩
+    · intro p hpp _ h163 hdvd
+      have := (Nat.prime_dvd_prime_iff_eq hpp hp).mp hdvd
+      omega
+    · rintro p hpp h163 _ ⟨q, hpq, _, rfl⟩
+      have h1 : p ∣ p * q := Dvd.intro _ rfl
+      have := (Nat.prime_dvd_prime_iff_eq hpp hp).mp h1
+      -- p = p * q forces q = 1 < p
+      have hq : q = 1 := by
+        have hp0 : 0 < p := hpp.pos
+        have : p * 1 = p * q := by rw [Nat.mul_one]; exact this
+        exact (Nat.eq_of_mul_eq_mul_left hp0 this).symm
+      have := hpp.two_le
+      omega
+  · rintro ⟨hpre, hcross⟩
+    by_contra hnp
+    have hn1 : n ≠ 1 := by omega
+    set p := n.minFac with hpdef
+    have hpp : p.Prime := Nat.minFac_prime hn1
+    have hpd : p ∣ n := Nat.minFac_dvd n
+    have hsq : p * p ≤ n := by
+      have := Nat.minFac_sq_le_self (by omega : 0 < n) hnp
+      simpa [Nat.pow_two] using this
+    -- p is not 2, 3, 5
+    have hp7 : 7 ≤ p := by
+      have h2 : ¬ 2 ∣ n := fun h => by
+        have : 2 ∣ Nat.gcd n 30 := Nat.dvd_gcd h (by decide)
+        rw [hc] at this; omega
+      have h3 : ¬ 3 ∣ n := fun h => by
+        have : 3 ∣ Nat.gcd n 30 := Nat.dvd_gcd h (by decide)
+        rw [hc] at this; omega
+      have h5 : ¬ 5 ∣ n := fun h => by
+        have : 5 ∣ Nat.gcd n 30 := Nat.dvd_gcd h (by decide)
+        rw [hc] at this; omega
+      by_contra hlt
+      have hp2 := hpp.two_le
+      have hlt' : p < 7 := by omega
+      interval_cases p
+      · exact h2 hpd
+      · exact h3 hpd
+      · exact absurd hpp (by decide)
+      · exact h5 hpd
+      · exact absurd hpp (by decide)
+    by_cases h163 : p ≤ 163
+    · exact hpre p hpp hp7 h163 hpd
+    · obtain ⟨q, hq⟩ := hpd
+      have hpq : p ≤ q := by
+        by_contra hlt
+        have : p * q < p * p := (Nat.mul_lt_mul_left hpp.pos).mpr (by omega)
+        omega
+      have hq30 : Nat.gcd q 30 = 1 := by
+        have : Nat.gcd q 30 ∣ Nat.gcd n 30 := Nat.gcd_dvd_gcd_of_dvd_left 30 (Dvd.intro_left p hq.symm)
+        rw [hc] at this
+        exact Nat.eq_one_of_dvd_one this
+      refine hcross p hpp (by omega) (by omega) ⟨q, hpq, ?_, hq⟩
+      rcases hM p with h30 | h210
+      · rw [h30]; exact hq30
+      · rw [h210]
+        -- 210 = 30 · 7 and 7 ∤ q (else 7 ∣ n, excluded by the pre-sieve)
+        have h7 : ¬ 7 ∣ q := fun h => hpre 7 (by decide) (by omega) (by omega) (hq ▸ Dvd.dvd.mul_left h p)
+        have hcop7 : Nat.Coprime q 7 := (Nat.Prime.coprime_iff_not_dvd (by decide : Nat.Prime 7)).mpr h7 |>.symm
+        have : Nat.Coprime q (30 * 7) := Nat.Coprime.mul_right hq30 hcop7
+        simpa using this
+
+theorem walk_ge30 (L : Nat) : ∀ N s q, Denotes 30 L s q → q + N ≤ (walk 30 N s q).2 := by
+  intro N
+  induction N with
+  | zero => intro s q _; simp [walk]
+  | succ N ih =>
+    intro s q h
+    have hs := step_sound30 L s q h
+    have e8 : (cls 30).length = 8 := (by decide +kernel)
+    have := ih _ _ hs.1
+    simp only [walk, e8]
+    have hF := hs.2.2.1
+    omega
+
+/-- every admissible multiple p·x with x at or above the starting quotient is reached by the walk, and the
+    state reached denotes exactly that multiple (so the bit cleared there is the bit of p·x) -/
+theorem walk_reaches30 (L : Nat) (s : SP) (q x : Nat) (h : Denotes 30 L s q) (hx : q ≤ x) (hg : Nat.gcd x 30 = 1) :
+    ∃ j, (walk 30 j s q).2 = x ∧ Denotes 30 L (walk 30 j s q).1 x := by
+  have hN := walk_ge30 L (x - q + 1) s q h
+  obtain ⟨j, _, hj⟩ := (walk_exact30 L (x - q + 1) s q h).2.2 x hx (by omega) hg
+  refine ⟨j, hj, ?_⟩
+  have := (walk_exact30 L j s q h).1
+  rw [hj] at this
+  exact this
+
+theorem walk_ge210 (L : Nat) : ∀ N s q, Denotes 210 L s q → q + N ≤ (walk 210 N s q).2 := by
+  intro N
+  induction N with
+  | zero => intro s q _; simp [walk]
+  | succ N ih =>
+    intro s q h
+    have hs := step_sound210 L s q h
+    have e8 : (cls 210).length = 48 := cls210_len
+    have := ih _ _ hs.1
+    simp only [walk, e8]
+    have hF := hs.2.2.1
+    omega
+
+/-- every admissible multiple p·x with x at or above the starting quotient is reached by the walk, and the
+    state reached denotes exactly that multiple (so the bit cleared there is the bit of p·x) -/
+theorem walk_reaches210 (L : Nat) (s : SP) (q x : Nat) (h : Denotes 210 L s q) (hx : q ≤ x) (hg : Nat.gcd x 210 = 1) :
+    ∃ j, (walk 210 j s q).2 = x ∧ Denotes 210 L (walk 210 j s q).1 x := by
+  have hN := walk_ge210 L (x - q + 1) s q h
+  obtain ⟨j, _, hj⟩ := (walk_exact210 L (x - q + 1) s q h).2.2 x hx (by omega) hg
+  refine ⟨j, hj, ?_⟩
+  have := (walk_exact210 L j s q h).1
+  rw [hj] at this
+  exact this
+
+/-- a multiple p·x inside a segment (above L + 6) has a quotient at or above the first quotient
+    addSievingPrime considers -/
+theorem quotient_ge_first (p L x : Nat) (hp0 : 0 < p) (hpx : p ≤ x) (hn : L + 6 < p * x) :
+    max p ((L + 6) / p + 1) ≤ x := by
+  have : (L + 6) / p < x := by
+    rw [Nat.div_lt_iff_lt_mul hp0, Nat.mul_comm]; exact hn
+  omega
+
+
+/-- once a sieving prime has been stored, the walk from the stored state reaches every admissible multiple
+    p·x (x ≥ p coprime to the modulus) that lies above the segment start, and the state reached
+    denotes it -/
+theorem crossoff_covers30 (stop p L : Nat) (hp : Nat.gcd (p % 30) 30 = 1) (hp0 : 0 < p) (hL : L % 30 = 0)
+    (hnw : L + 6 < U64) (hnw2 : p * (max p ((L + 6) / p + 1) + 30) < U64) (hstop : stop < U64)
+    (s : SP) (h : addSievingPrime 30 8 Gen.wheel30Init stop p L = some s)
+    (x : Nat) (hpx : p ≤ x) (hg : Nat.gcd x 30 = 1) (hn : L + 6 < p * x) :
+    ∃ q1 j, Denotes 30 L s q1 ∧ (walk 30 j s q1).2 = x ∧ Denotes 30 L (walk 30 j s q1).1 x := by
+  obtain ⟨q1, hd, _, _, hleast, _⟩ := addSievingPrime30_denotes stop p L hp hp0 hL hnw hnw2 hstop s h
+  have hq0 := quotient_ge_first p L x hp0 hpx hn
+  have hq1 : q1 ≤ x := by
+    by_contra hlt
+    exact hleast x hq0 (by omega) hg
+  obtain ⟨j, hj, hdj⟩ := walk_reaches30 L s q1 x hd hq1 hg
+  exact ⟨q1, j, hd, hj, hdj⟩
+
+theorem crossoff_covers210 (stop p L : Nat) (hp : Nat.gcd (p % 30) 30 = 1) (hp0 : 0 < p) (hL : L % 30 = 0)
+    (hnw : L + 6 < U64) (hnw2 : p * (max p ((L + 6) / p + 1) + 210) < U64) (hstop : stop < U64)
+    (s : SP) (h : addSievingPrime 210 48 Gen.wheel210Init stop p L = some s)
+    (x : Nat) (hpx : p ≤ x) (hg : Nat.gcd x 210 = 1) (hn : L + 6 < p * x) :
+    ∃ q1 j, Denotes 210 L s q1 ∧ (walk 210 j s q1).2 = x ∧ Denotes 210 L (walk 210 j s q1).1 x := by
+  obtain ⟨q1, hd, _, _, hleast, _⟩ := addSievingPrime210_denotes stop p L hp hp0 hL hnw hnw2 hstop s h
+  have hq0 := quotient_ge_first p L x hp0 hpx hn
+  have hq1 : q1 ≤ x := by
+    by_contra hlt
+    exact hleast x hq0 (by omega) hg
+  obtain ⟨j, hj, hdj⟩ := walk_reaches210 L s q1 x hd hq1 hg
+  exact ⟨q1, j, hd, hj, hdj⟩
 
 end Ps.Wheel
